@@ -259,7 +259,7 @@ fn irr(rng: &mut Rng, ctx: &mut Ctx) {
         let pad = Pad::default();
         // blocks at the edge of what a 16-bit table entry can say: a Gecko list of 65 535 bytes (128 blocks), a Game Start or a Game End block of
         // 65 535 / 65 534 bytes (longer than any layout: the extra bytes are kept and written back)
-        if k % 16 == 6 { let big = if (k / 48) % 2 == 0 { 65535usize } else { 65534 };
+        if k % 16 == 6 && k < 640 { let big = if (k / 48) % 2 == 0 { 65535usize } else { 65534 };
             match (k / 16) % 3 { 0 if r.v >= (3, 3, 0) => { r.gecko = Some((rng.bytes(65536), big as u32)); } /* (a Gecko list belongs to 3.3+: the writer declares its events only there) */
                 1 => { r.start_block.resize(big, 0); }
                 _ => { if r.end.is_some() && !r.double_end { r.end.as_mut().unwrap().resize(big, 0xff); } else { r.start_block.resize(big, 0); } } }
@@ -310,7 +310,7 @@ fn irr(rng: &mut Rng, ctx: &mut Ctx) {
         // aligned spans: one more unknown event sized so that the bytes between Game Start and Game End are an exact multiple of a typical buffer
         // size (what a reader that skips or copies that span in chunks sees as "no remainder")
         let mut aligned = 0usize;
-        if k % 8 == 3 { let a = [4096usize, 8192, 65536, 16384, 32768, 65536, 131072, 8192][(k / 8) % 8]; let span: usize = body.iter().map(|e| e.len()).sum();
+        if k % 8 == 3 { let a = if k < 640 { [4096usize, 8192, 65536, 16384, 32768, 65536, 131072, 8192][(k / 8) % 8] } else { [4096usize, 8192, 16384, 8192][(k / 8) % 4] }; /* (files of 64 KiB and more only near the start of a shard) */ let span: usize = body.iter().map(|e| e.len()).sum();
             let mut t = (a - span % a) % a; if t == 1 { t += a; }
             let code = [0x42u8, 0x43, 0x44][(k / 8) % 3];
             if t >= 2 && t - 1 <= 65535 && !r.extra_payloads.iter().any(|x| x.0 == code) { let sz = (t - 1) as u16; r.extra_payloads.push((code, sz)); if what == 5 { sizes.push((code, sz)); }
